@@ -125,18 +125,25 @@ def h_cumulants(ctx, model, order):
     return mdl, pj, kappa
 
 
-def h_moments(ctx, model):
+def h_moments(ctx, model, reinit=False):
     """kappa'(0), kappa''(0) of the pure-jump exponent equal the model's own closed-form moment integrals over the whole line,
     with the compensator of the declared representation"""
     Jet.ORDER = 2
     prm = make_params(ctx, model)
+    if reinit:
+        # the parameter object is updated in place and re-initialised (what the calibration does) before the model is built: exponent and
+        # jump measure must both describe the new values, whatever the object held before
+        new = make_params(ctx, model)
+        for name in [k for k in vars(new) if not k.startswith("_")]:
+            setattr(prm, name, getattr(new, name))
+        prm.initialisation()
     mdl = MODELS[model](prm)
     pj = Jet.lift(mdl.levy_exponent_pure_jump(Jet.variable(0.0)))
     nu = mdl.levy_triplet.nu
     rep = mdl.levy_triplet.representation
     M1 = nu.integrate_against_x(-INF, INF)
     M2 = nu.integrate_against_xx(-INF, INF)
-    info = {"model": model, "representation": rep.name}
+    info = {"model": model, "representation": rep.name, "reinitialised": reinit}
     want1 = M1 if rep == LevyRepresentation.ZERO else 0.0  # CENTER: fully compensated; ZERO: no compensator
     ctx.prove("C10.first_derivative_of_exponent_is_first_moment_in_declared_representation", EQ_RATIONAL(pj.c[1], want1), info=info, timeout_ms=60000)
     ctx.prove("C10.second_derivative_of_exponent_is_second_moment", EQ_RATIONAL(2 * pj.c[2], M2), info=info, timeout_ms=60000)
@@ -312,8 +319,9 @@ def harnesses(tier):
     hs = [Harness("concrete", concrete_validation, concrete=True)]
     for model in ("HEM", "MERTON", "VG", "CGMY"):
         hs.append(Harness(f"cumulants.{model}", h_cumulants, {"model": model, "order": 6}, max_paths=400, timeout_ms=90000))
-    for model in ("HEM", "MERTON"):
+    for model in ("HEM", "MERTON", "VG"):
         hs.append(Harness(f"moments.{model}", h_moments, {"model": model}, max_paths=400, timeout_ms=90000))
+        hs.append(Harness(f"moments.{model}.reinitialised", h_moments, {"model": model, "reinit": True}, max_paths=400, timeout_ms=90000))
     for case in ("y0", "y1", "neg"):
         hs.append(Harness(f"cgmy.first.{case}", h_cgmy_first, {"case": case}, max_paths=400, timeout_ms=90000))
     L = 2 if q else 3
